@@ -160,6 +160,10 @@ theorem redefine_frame (h : List (Name × ClassDef)) (a : Name) (d' : ClassDef) 
 example : inhOf (run ([(0, ⟨[], []⟩), (1, ⟨[0], []⟩), (2, ⟨[1], []⟩), (3, ⟨[], []⟩)] ++ [(0, ⟨[3], []⟩)])) 2
     = some [1, 0, 3] := by decide
 
+-- hypotheses of redefine_frame: class 3 does not inherit from the redefined class 0
+example : inhOf (run [(0, ⟨[], []⟩), (1, ⟨[0], []⟩), (3, ⟨[], []⟩)]) 3 = some [] ∧ (3 : Name) ≠ 0 ∧
+    (0 : Name) ∉ ([] : List Name) := by decide
+
 /-! ## typep, class-of and method applicability use the same list -/
 
 /-- membership in the precedence list is reachability in the class graph: `k` is on the list of `c`
@@ -237,6 +241,13 @@ theorem slot_init_initform (sds : List SlotDef) (args : List (Name × Val)) (x :
 example : build [⟨0, [0], some 2⟩, ⟨1, [0, 1], none⟩, ⟨0, [2], some 1⟩] [(2, 7), (0, 8)]
     = [(0, some 7), (1, some 8)] := by decide
 
+-- hypotheses of slot_init_initarg and slot_init_initform
+example : ([(2, 7), (0, 8)] : List (Name × Val)).find?
+    (fun a => (initargsFor [⟨0, [0], some 2⟩, ⟨1, [0, 1], none⟩, ⟨0, [2], some 1⟩] 0).contains a.1)
+    = some (2, 7) := by decide
+example : ∀ a ∈ ([(1, 7)] : List (Name × Val)),
+    a.1 ∉ initargsFor [⟨0, [0], some 2⟩, ⟨1, [0, 1], none⟩] 0 := by decide
+
 /-- make-instance of a ready class whose supplied initargs are all declared is that instance -/
 theorem makeInstance_spec (s : State) (c : Name) (p : List Name) (args : List (Name × Val))
     (hp : precOf s c = some p)
@@ -244,6 +255,11 @@ theorem makeInstance_spec (s : State) (c : Name) (p : List Name) (args : List (N
     makeInstance s c args =
       .ok ((slotNames (slotDefsOf s p)).map (fun x => (x, valueSpec (slotDefsOf s p) args x))) := by
   simp only [makeInstance, hp, hv, if_true, slot_init_spec]
+
+example : precOf (run [(1, ⟨[0], [⟨1, [1], none⟩]⟩), (0, ⟨[], [⟨0, [0], some 5⟩]⟩)]) 1 = some [1, 0] ∧
+    ([(0, 9)] : List (Name × Val)).all (fun a => validArg (slotDefsOf
+      (run [(1, ⟨[0], [⟨1, [1], none⟩]⟩), (0, ⟨[], [⟨0, [0], some 5⟩]⟩)]) [1, 0]) a.1) = true := by
+  decide
 
 /-- a class that is not ready cannot be instantiated -/
 theorem makeInstance_not_ready (s : State) (c : Name) (args : List (Name × Val))
@@ -279,17 +295,17 @@ example : getSlot (writeSlot [(0, some 1), (1, none), (2, some 3)] 1 9) 2 = some
 /-- initarg_order_irrelevant: when no slot is reached by two of the supplied pairs, the order in
     which the pairs are supplied (slip walks a Go map of them) does not change any slot. -/
 theorem initarg_order_irrelevant (sds : List SlotDef) (args1 args2 : List (Name × Val))
-    (hp : args1.Perm args2) (hu : ∀ x, Unambiguous sds args1 x) :
+    (hp : args1.Perm args2) (hu : ∀ x ∈ slotNames sds, Unambiguous sds args1 x) :
     build sds args1 = build sds args2 := by
   rw [slot_init_spec, slot_init_spec]
   apply List.map_congr_left
-  intro x _
-  rw [valueSpec_perm hp (hu x)]
+  intro x hx
+  rw [valueSpec_perm hp (hu x hx)]
 
-example : Unambiguous [⟨0, [0], some 2⟩, ⟨1, [1], none⟩] [(1, 7), (0, 8)] 0 := by
-  intro a ha b hb h1 h2
-  simp [initargsFor] at ha hb h1 h2
-  rcases ha with rfl | rfl <;> rcases hb with rfl | rfl <;> simp_all
+example : ∀ x ∈ slotNames [⟨0, [0], some 2⟩, ⟨1, [1], none⟩],
+    Unambiguous [⟨0, [0], some 2⟩, ⟨1, [1], none⟩] [(1, 7), (0, 8)] x := by
+  unfold Unambiguous
+  decide
 
 /-- the model's `dedup` is the loop of mergeSupers: walk the candidates and append those that are
     not yet on the list -/
